@@ -1,0 +1,250 @@
+//go:build verif
+
+// Contracts for deductive verification (comment-only; compiled to nothing).
+// Read by /verif/bin/govc, which generates verification conditions from the
+// SSA of this package. Syntax: DESIGN.md section 2.2 in /verif.
+
+package cose
+
+// ===================================================================
+// ecdsa.go  (C16)
+// ===================================================================
+
+//@ func I2OSP
+//@   requires x_nonnil: x != nil
+//@   ensures iff [C03, C16, C17, C20]: err == nil <==> (bigval(x) >= 0 && bitlen(bigval(x)) <= 8 * len(buf))
+//@   ensures val [C03, C16, C17, C20]: err == nil ==> bytes(buf) == bebytes(bigval(x), len(buf))
+//@   ensures unchanged_on_err [C03, C16, C17, C20]: err != nil ==> bytes(buf) == old(bytes(buf))
+//@   modifies frame [C18]: elems(buf)
+
+//@ func OS2IP
+//@   ensures fresh_val [C03, C16, C17, C20]: result != nil && fresh(result) && bigval(result) == be(bytes(x))
+//@   modifies frame [C18]: nothing
+
+//@ spec orderbytes(c elliptic.Curve) Int = (orderbits(c) + 7) / 8
+
+//@ func encodeECDSASignature
+//@   requires nonnil: curve != nil && r != nil && s != nil
+//@   ensures iff [C03, C16, C17, C20]: err == nil <==> (bigval(r) >= 0 && bitlen(bigval(r)) <= 8 * orderbytes(curve) && bigval(s) >= 0 && bitlen(bigval(s)) <= 8 * orderbytes(curve))
+//@   ensures form [C03, C16, C17, C20]: err == nil ==> len(result) == 2 * orderbytes(curve) && fresh(result)
+//@       && bytes(result[:orderbytes(curve)]) == bebytes(bigval(r), orderbytes(curve))
+//@       && bytes(result[orderbytes(curve):]) == bebytes(bigval(s), orderbytes(curve))
+//@   ensures err_nil_bytes [C03, C16, C17, C20]: err != nil ==> result == nil
+//@   modifies frame [C18]: nothing
+
+//@ func decodeECDSASignature
+//@   requires nonnil: curve != nil
+//@   ensures iff [C03, C16, C17, C20]: err == nil <==> len(sig) == 2 * orderbytes(curve)
+//@   ensures vals [C03, C16, C17, C20]: err == nil ==> r != nil && s != nil && fresh(r) && fresh(s)
+//@       && bigval(r) == be(bytes(sig[:orderbytes(curve)])) && bigval(s) == be(bytes(sig[orderbytes(curve):]))
+//@   modifies frame [C18]: nothing
+
+// ===================================================================
+// algorithm.go  (C17)
+// ===================================================================
+
+//@ spec hashid(a Algorithm) Int = (a == -37 || a == -7 || a == -16) ? 5 : ((a == -38 || a == -35 || a == -43) ? 6 : ((a == -39 || a == -36 || a == -44) ? 7 : 0))
+
+//@ func (Algorithm).hashFunc
+//@   ensures table [C03, C12, C17, C20]: result == hashid(a)
+//@   modifies frame [C18]: nothing
+
+//@ func computeHash
+//@   ensures avail [C03, C17, C20]: err == nil <==> hash_available(h)
+//@   ensures digest [C03, C17, C20]: err == nil ==> bytes(result) == hash_of(h, bytes(data)) && fresh(result)
+//@   ensures err_nil [C03, C17, C20]: err != nil ==> result == nil && err == ErrUnavailableHashFunc
+//@   modifies frame [C18]: nothing
+
+// ===================================================================
+// ecdsa.go signers / verifier  (C16, C17, C03, C20)
+// ===================================================================
+
+//@ spec ecsig_ok(c elliptic.Curve, r Int, s Int) Bool = r >= 0 && bitlen(r) <= 8 * orderbytes(c) && s >= 0 && bitlen(s) <= 8 * orderbytes(c)
+//@ spec ecsig_form(c elliptic.Curve, out []byte, r Int, s Int) Bool = len(out) == 2 * orderbytes(c)
+//@       && bytes(out[:orderbytes(c)]) == bebytes(r, orderbytes(c)) && bytes(out[orderbytes(c):]) == bebytes(s, orderbytes(c))
+
+//@ func (*ecdsaKeySigner).Algorithm
+//@   requires valid: es != nil
+//@   ensures alg [C17]: result == es.alg
+//@   modifies frame [C18]: nothing
+
+//@ func (*ecdsaKeySigner).SignDigest
+//@   requires valid: es != nil && es.key != nil && es.key.PublicKey.Curve != nil
+//@   ensures verbatim [C03, C16, C17, C20]: old(ecdsa_sign_err(ecpriv(es.key), rand, bytes(digest), epoch())) != nil
+//@       ==> err == old(ecdsa_sign_err(ecpriv(es.key), rand, bytes(digest), epoch())) && result == nil
+//@   ensures iff [C03, C16, C17, C20]: old(ecdsa_sign_err(ecpriv(es.key), rand, bytes(digest), epoch())) == nil
+//@       ==> (err == nil <==> ecsig_ok(es.key.PublicKey.Curve, old(ecdsa_sign_r(ecpriv(es.key), rand, bytes(digest), epoch())), old(ecdsa_sign_s(ecpriv(es.key), rand, bytes(digest), epoch()))))
+//@   ensures form [C03, C16, C17, C20]: err == nil ==> ecsig_form(es.key.PublicKey.Curve, result, old(ecdsa_sign_r(ecpriv(es.key), rand, bytes(digest), epoch())), old(ecdsa_sign_s(ecpriv(es.key), rand, bytes(digest), epoch())))
+//@   ensures err_nil_bytes [C03, C16, C17, C20]: err != nil ==> result == nil
+//@   modifies frame [C18]: nothing
+
+//@ func (*ecdsaKeySigner).Sign
+//@   requires valid: es != nil && es.key != nil && es.key.PublicKey.Curve != nil
+//@   ensures width [C16]: err == nil ==> len(result) == 2 * orderbytes(es.key.PublicKey.Curve)
+//@   ensures nohash [C17, C20]: !hash_available(hashid(es.alg)) ==> err == ErrUnavailableHashFunc && result == nil
+//@   ensures verbatim [C17, C20]: hash_available(hashid(es.alg)) && old(ecdsa_sign_err(ecpriv(es.key), rand, hash_of(hashid(es.alg), bytes(content)), epoch())) != nil
+//@       ==> err == old(ecdsa_sign_err(ecpriv(es.key), rand, hash_of(hashid(es.alg), bytes(content)), epoch())) && result == nil
+//@   ensures digest_equiv [C17]: err == nil ==> ecsig_form(es.key.PublicKey.Curve, result,
+//@       old(ecdsa_sign_r(ecpriv(es.key), rand, hash_of(hashid(es.alg), bytes(content)), epoch())),
+//@       old(ecdsa_sign_s(ecpriv(es.key), rand, hash_of(hashid(es.alg), bytes(content)), epoch())))
+//@   ensures err_nil_bytes [C17, C20]: err != nil ==> result == nil
+//@   modifies frame [C18]: nothing
+
+//@ func (*ecdsaCryptoSigner).Algorithm
+//@   requires valid: es != nil
+//@   ensures alg [C17]: result == es.alg
+//@   modifies frame [C18]: nothing
+
+//@ func (*ecdsaCryptoSigner).SignDigest
+//@   requires valid: es != nil && es.key != nil && es.key.Curve != nil && es.signer != nil
+//@   ensures verbatim [C03, C16, C17, C20]: old(crypto_sign_err(es.signer, rand, bytes(digest), opts_nil, epoch())) != nil
+//@       ==> err == old(crypto_sign_err(es.signer, rand, bytes(digest), opts_nil, epoch())) && result == nil
+//@   ensures asn1 [C03, C16, C17, C20]: old(crypto_sign_err(es.signer, rand, bytes(digest), opts_nil, epoch())) == nil
+//@       && asn1_err(old(crypto_sign_bytes(es.signer, rand, bytes(digest), opts_nil, epoch()))) != nil
+//@       ==> err == asn1_err(old(crypto_sign_bytes(es.signer, rand, bytes(digest), opts_nil, epoch()))) && result == nil
+//@   ensures iff [C03, C16, C17, C20]: old(crypto_sign_err(es.signer, rand, bytes(digest), opts_nil, epoch())) == nil
+//@       && asn1_err(old(crypto_sign_bytes(es.signer, rand, bytes(digest), opts_nil, epoch()))) == nil
+//@       ==> (err == nil <==> ecsig_ok(es.key.Curve, asn1_r(old(crypto_sign_bytes(es.signer, rand, bytes(digest), opts_nil, epoch()))), asn1_s(old(crypto_sign_bytes(es.signer, rand, bytes(digest), opts_nil, epoch())))))
+//@   ensures form [C03, C16, C17, C20]: err == nil ==> ecsig_form(es.key.Curve, result, asn1_r(old(crypto_sign_bytes(es.signer, rand, bytes(digest), opts_nil, epoch()))), asn1_s(old(crypto_sign_bytes(es.signer, rand, bytes(digest), opts_nil, epoch()))))
+//@   ensures err_nil_bytes [C03, C16, C17, C20]: err != nil ==> result == nil
+//@   modifies frame [C18]: nothing
+
+//@ func (*ecdsaCryptoSigner).Sign
+//@   requires valid: es != nil && es.key != nil && es.key.Curve != nil && es.signer != nil
+//@   ensures width [C16]: err == nil ==> len(result) == 2 * orderbytes(es.key.Curve)
+//@   ensures nohash [C17, C20]: !hash_available(hashid(es.alg)) ==> err == ErrUnavailableHashFunc && result == nil
+//@   ensures digest_equiv [C17]: err == nil ==> ecsig_form(es.key.Curve, result,
+//@       asn1_r(old(crypto_sign_bytes(es.signer, rand, hash_of(hashid(es.alg), bytes(content)), opts_nil, epoch()))),
+//@       asn1_s(old(crypto_sign_bytes(es.signer, rand, hash_of(hashid(es.alg), bytes(content)), opts_nil, epoch()))))
+//@   ensures err_nil_bytes [C17, C20]: err != nil ==> result == nil
+//@   modifies frame [C18]: nothing
+
+//@ func (*ecdsaVerifier).Algorithm
+//@   requires valid: ev != nil
+//@   ensures alg [C17]: result == ev.alg
+//@   modifies frame [C18]: nothing
+
+//@ func (*ecdsaVerifier).VerifyDigest
+//@   requires valid: ev != nil && ev.key != nil && ev.key.Curve != nil
+//@   ensures iff [C03, C16, C17]: result == nil <==> (len(signature) == 2 * orderbytes(ev.key.Curve)
+//@       && ecdsa_verify(ecpub(ev.key), bytes(digest), be(bytes(signature[:orderbytes(ev.key.Curve)])), be(bytes(signature[orderbytes(ev.key.Curve):]))))
+//@   ensures errv [C03, C16, C17]: result != nil ==> result == ErrVerification
+//@   modifies frame [C18]: nothing
+
+//@ func (*ecdsaVerifier).Verify
+//@   requires valid: ev != nil && ev.key != nil && ev.key.Curve != nil
+//@   ensures nohash [C17]: !hash_available(hashid(ev.alg)) ==> result == ErrUnavailableHashFunc
+//@   ensures iff [C03, C17]: hash_available(hashid(ev.alg)) ==> (result == nil <==> (len(signature) == 2 * orderbytes(ev.key.Curve)
+//@       && ecdsa_verify(ecpub(ev.key), hash_of(hashid(ev.alg), bytes(content)), be(bytes(signature[:orderbytes(ev.key.Curve)])), be(bytes(signature[orderbytes(ev.key.Curve):])))))
+//@   ensures errv [C03]: result != nil ==> result == ErrVerification || result == ErrUnavailableHashFunc
+//@   modifies frame [C18]: nothing
+
+// ===================================================================
+// rsa.go, ed25519.go  (C17, C03, C20)
+// ===================================================================
+
+//@ func (*rsaSigner).Algorithm
+//@   requires valid: rs != nil
+//@   ensures alg [C17]: result == rs.alg
+//@   modifies frame [C18]: nothing
+
+//@ func (*rsaSigner).SignDigest
+//@   requires valid: rs != nil && rs.key != nil
+//@   ensures fun [C17, C20]: err == old(crypto_sign_err(rs.key, rand, bytes(digest), opts_pss(-1, hashid(rs.alg)), epoch()))
+//@       && bytes(result) == old(crypto_sign_bytes(rs.key, rand, bytes(digest), opts_pss(-1, hashid(rs.alg)), epoch()))
+//@   modifies frame [C18]: nothing
+
+//@ func (*rsaSigner).Sign
+//@   requires valid: rs != nil && rs.key != nil
+//@   ensures nohash [C17, C20]: !hash_available(hashid(rs.alg)) ==> err == ErrUnavailableHashFunc && result == nil
+//@   ensures digest_equiv [C17, C20]: hash_available(hashid(rs.alg)) ==>
+//@       err == old(crypto_sign_err(rs.key, rand, hash_of(hashid(rs.alg), bytes(content)), opts_pss(-1, hashid(rs.alg)), epoch()))
+//@       && bytes(result) == old(crypto_sign_bytes(rs.key, rand, hash_of(hashid(rs.alg), bytes(content)), opts_pss(-1, hashid(rs.alg)), epoch()))
+//@   modifies frame [C18]: nothing
+
+//@ func (*rsaVerifier).Algorithm
+//@   requires valid: rv != nil
+//@   ensures alg [C17]: result == rv.alg
+//@   modifies frame [C18]: nothing
+
+//@ func (*rsaVerifier).VerifyDigest
+//@   requires valid: rv != nil && rv.key != nil
+//@   ensures iff [C03, C17]: result == nil <==> rsa_verify_pss(rsapub(rv.key), hashid(rv.alg), bytes(digest), bytes(signature), -1) == nil
+//@   ensures errv [C03]: result != nil ==> result == ErrVerification
+//@   modifies frame [C18]: nothing
+
+//@ func (*rsaVerifier).Verify
+//@   requires valid: rv != nil && rv.key != nil
+//@   ensures nohash [C17]: !hash_available(hashid(rv.alg)) ==> result == ErrUnavailableHashFunc
+//@   ensures iff [C03, C17]: hash_available(hashid(rv.alg)) ==> (result == nil <==>
+//@       rsa_verify_pss(rsapub(rv.key), hashid(rv.alg), hash_of(hashid(rv.alg), bytes(content)), bytes(signature), -1) == nil)
+//@   ensures errv [C03]: result != nil ==> result == ErrVerification || result == ErrUnavailableHashFunc
+//@   modifies frame [C18]: nothing
+
+//@ func (*ed25519Signer).Algorithm
+//@   ensures alg [C17]: result == -8
+//@   modifies frame [C18]: nothing
+
+//@ func (*ed25519Signer).Sign
+//@   requires valid: es != nil && es.key != nil
+//@   ensures fun [C17, C20]: err == old(crypto_sign_err(es.key, rand, bytes(content), opts_hash(0), epoch()))
+//@       && bytes(result) == old(crypto_sign_bytes(es.key, rand, bytes(content), opts_hash(0), epoch()))
+//@   modifies frame [C18]: nothing
+
+//@ func (*ed25519Verifier).Algorithm
+//@   ensures alg [C17]: result == -8
+//@   modifies frame [C18]: nothing
+
+//@ func (*ed25519Verifier).Verify
+//@   requires valid: ev != nil && len(ev.key) == 32
+//@   ensures iff [C03, C17]: result == nil <==> ed25519_verify(bytes(ev.key), bytes(content), bytes(signature))
+//@   ensures errv [C03]: result != nil ==> result == ErrVerification
+//@   modifies frame [C18]: nothing
+
+// ===================================================================
+// signer.go, verifier.go  (C17)
+// ===================================================================
+
+//@ spec isPS(a Algorithm) Bool = a == -37 || a == -38 || a == -39
+//@ spec isES(a Algorithm) Bool = a == -7 || a == -35 || a == -36
+//@ spec isRS(a Algorithm) Bool = a == -257 || a == -258 || a == -259
+
+// validity of the Go key objects handed in (type invariants of crypto keys)
+//@ spec validPub(k any) Bool = (k is *rsa.PublicKey ==> k.(*rsa.PublicKey) != nil && k.(*rsa.PublicKey).N != nil)
+//@       && (k is *ecdsa.PublicKey ==> k.(*ecdsa.PublicKey) != nil)
+//@       && (k is ed25519.PublicKey ==> len(k.(ed25519.PublicKey)) == 32)
+
+//@ func NewSigner
+//@   requires valid: key != nil && validPub(crypto_public(key)) && (key is *ecdsa.PrivateKey ==> key.(*ecdsa.PrivateKey) != nil)
+//@   ensures iff [C17]: err == nil <==> ((isPS(alg) && crypto_public(key) is *rsa.PublicKey && bitlen(abs(bigval(crypto_public(key).(*rsa.PublicKey).N))) >= 2048)
+//@       || (isES(alg) && crypto_public(key) is *ecdsa.PublicKey)
+//@       || (alg == -8 && crypto_public(key) is ed25519.PublicKey))
+//@   ensures alg_reported [C17]: err == nil ==> result != nil
+//@       && (isPS(alg) ==> result is *rsaSigner && result.(*rsaSigner) != nil && result.(*rsaSigner).alg == alg && result.(*rsaSigner).key == key)
+//@       && (isES(alg) && key is *ecdsa.PrivateKey ==> result is *ecdsaKeySigner && result.(*ecdsaKeySigner) != nil && result.(*ecdsaKeySigner).alg == alg && result.(*ecdsaKeySigner).key == key.(*ecdsa.PrivateKey))
+//@       && (isES(alg) && !(key is *ecdsa.PrivateKey) ==> result is *ecdsaCryptoSigner && result.(*ecdsaCryptoSigner) != nil && result.(*ecdsaCryptoSigner).alg == alg
+//@             && result.(*ecdsaCryptoSigner).key == crypto_public(key).(*ecdsa.PublicKey) && result.(*ecdsaCryptoSigner).signer == key)
+//@       && (alg == -8 ==> result is *ed25519Signer && result.(*ed25519Signer) != nil && result.(*ed25519Signer).key == key)
+//@   ensures errors [C17]: err != nil ==> result == nil
+//@       && ((alg == 0 || isRS(alg) || !(isPS(alg) || isES(alg) || alg == -8)) ==> Is(err, ErrAlgorithmNotSupported))
+//@       && (isPS(alg) && !(crypto_public(key) is *rsa.PublicKey) ==> Is(err, ErrInvalidPubKey))
+//@       && (isES(alg) && !(crypto_public(key) is *ecdsa.PublicKey) ==> Is(err, ErrInvalidPubKey))
+//@       && (alg == -8 && !(crypto_public(key) is ed25519.PublicKey) ==> Is(err, ErrInvalidPubKey))
+//@   modifies frame [C18]: nothing
+
+//@ func NewVerifier
+//@   requires valid: validPub(key)
+//@   ensures iff [C17]: err == nil <==> ((isPS(alg) && key is *rsa.PublicKey && bitlen(abs(bigval(key.(*rsa.PublicKey).N))) >= 2048)
+//@       || (isES(alg) && key is *ecdsa.PublicKey && ecdh_err(ecpub(key.(*ecdsa.PublicKey))) == nil)
+//@       || (alg == -8 && key is ed25519.PublicKey))
+//@   ensures alg_reported [C17]: err == nil ==> result != nil
+//@       && (isPS(alg) ==> result is *rsaVerifier && result.(*rsaVerifier) != nil && result.(*rsaVerifier).alg == alg && result.(*rsaVerifier).key == key.(*rsa.PublicKey))
+//@       && (isES(alg) ==> result is *ecdsaVerifier && result.(*ecdsaVerifier) != nil && result.(*ecdsaVerifier).alg == alg && result.(*ecdsaVerifier).key == key.(*ecdsa.PublicKey))
+//@       && (alg == -8 ==> result is *ed25519Verifier && result.(*ed25519Verifier) != nil && result.(*ed25519Verifier).key == key.(ed25519.PublicKey))
+//@   ensures errors [C17]: err != nil ==> result == nil
+//@       && ((alg == 0 || isRS(alg) || !(isPS(alg) || isES(alg) || alg == -8)) ==> Is(err, ErrAlgorithmNotSupported))
+//@       && (isPS(alg) && !(key is *rsa.PublicKey) ==> Is(err, ErrInvalidPubKey))
+//@       && (isES(alg) && !(key is *ecdsa.PublicKey) ==> Is(err, ErrInvalidPubKey))
+//@       && (isES(alg) && key is *ecdsa.PublicKey && ecdh_err(ecpub(key.(*ecdsa.PublicKey))) != nil ==> Is(err, ErrInvalidPubKey))
+//@       && (alg == -8 && !(key is ed25519.PublicKey) ==> Is(err, ErrInvalidPubKey))
+//@   modifies frame [C18]: nothing
